@@ -427,6 +427,10 @@ class _SpyOpt:
     def tell(self, X, y):
         self.calls.append((list(X), list(y)))
 
+    def update_next(self):
+        # CBO._tell renews the optimizer's suggestions when a whole batch was dropped (nothing is told)
+        pass
+
 
 _cbo = {}
 
